@@ -686,6 +686,7 @@ class LanguageCsharp(Language):
                 for param in operation.PARAMETERS:
                     tuples = self.GetTypeAndNameFromMultiplicityAndModifier(classObj, param["type"].strip(), param["modifier"].strip(), param["multiplicity"].strip(), param["name"].strip())
                     #tuple0 = param["const"].strip() + " " + tuples[0]
+                    tuple0 = tuples[0]  # 'in' (or unspecified) direction: passed by value
                     if param["direction"].strip().find("inout") > -1:
                         tuple0 = "ref " + tuples[0]
                     elif param["direction"].strip().find("out") > -1:
